@@ -69,10 +69,12 @@ func H_C10_stack() {
 			if p := abs(ci); p != 0 {
 				model = append(model[:p-1], model[p:]...)
 			}
-		case 6: // Replace
-			if p := abs(ci); p != 0 {
+		case 6: // Replace (an index outside the list replaces nothing and does not grow the list)
+			if ci != 0 {
 				L.Replace(ci, LNumber(66))
-				model[p-1] = LNumber(66)
+				if p := abs(ci); p != 0 {
+					model[p-1] = LNumber(66)
+				}
 			}
 		}
 		VAssert(L.GetTop() == len(model), "stack: GetTop after the operation")
@@ -225,16 +227,22 @@ func H_C10_objops() {
 	L := newL(Options{}, BaseLibName)
 	mt := L.NewTable()
 	hv := VFloat("h")
+	var opA LValue // the left operand, known to the handlers so that their results depend on the argument order
 	for _, ev := range []string{"__len", "__eq", "__lt", "__le", "__concat", "__index", "__tostring"} {
 		ev := ev
 		mt.RawSetString(ev, L.NewFunction(func(L *LState) int {
 			switch ev {
 			case "__eq", "__lt", "__le":
-				L.Push(LTrue)
+				// order-sensitive: true exactly when the first argument is the operand called a
+				L.Push(LBool(L.Get(1) == opA))
 			case "__tostring":
 				L.Push(LString("TS"))
 			case "__concat":
-				L.Push(LString("CC"))
+				if L.Get(1) == opA {
+					L.Push(LString("CC"))
+				} else {
+					L.Push(LString("CC-second-operand-first"))
+				}
 			default:
 				L.Push(LNumber(hv))
 			}
@@ -272,6 +280,7 @@ func H_C10_objops() {
 		return ud
 	}
 	a, b := mk(VChoice(5)), mk(VChoice(5))
+	opA = a
 	L.G.Global.RawSetString("a", a)
 	L.G.Global.RawSetString("b", b)
 	// run the Lua expression protected; returns its value or failure
